@@ -83,4 +83,87 @@ theorem bufSpec_getLastD (m : Nat) (d0 : Rat) (ds : List Rat) :
   rw [List.range_succ, List.map_append]
   simp
 
+/-! ### optimisation helpers -/
+
+theorem resKnots_num (ts vs : List Rat) : resKnots ts (vs.map Res.num) = ts.zip vs := by
+  induction ts generalizing vs with
+  | nil => simp [resKnots]
+  | cons t ts ih =>
+    cases vs with
+    | nil => simp [resKnots]
+    | cons v vs =>
+      have := ih vs
+      simp only [resKnots] at this ⊢
+      rw [List.map_cons, List.zip_cons_cons, List.filterMap_cons]
+      have h1 : (Res.num v).toRat? = some v := rfl
+      simp only [h1, Option.map_some]
+      rw [this, List.zip_cons_cons]
+
+theorem searchLeft_le_length (l : List Rat) (e : Rat) : searchLeft l e ≤ l.length := by
+  induction l with
+  | nil => simp [searchLeft]
+  | cons a rest ih =>
+    simp only [searchLeft]
+    by_cases h : a < e
+    · simp only [h, if_true, List.length_cons]; omega
+    · simp [h]
+
+theorem searchLeft_spec (l : List Rat) (e : Rat) (hs : l.Pairwise (· < ·)) :
+    (∀ i, i < searchLeft l e → l.getD i 0 < e) ∧
+    (∀ i, searchLeft l e ≤ i → i < l.length → e ≤ l.getD i 0) := by
+  induction l with
+  | nil => simp [searchLeft]
+  | cons a rest ih =>
+    have ih' := ih (List.pairwise_cons.1 hs).2
+    have ha := (List.pairwise_cons.1 hs).1
+    simp only [searchLeft]
+    by_cases h : a < e
+    · simp only [h, if_true]
+      constructor
+      · intro i hi
+        cases i with
+        | zero => simpa using h
+        | succ i => simpa using ih'.1 i (by omega)
+      · intro i hi hlen
+        cases i with
+        | zero => omega
+        | succ i =>
+          simp only [List.length_cons] at hlen
+          simpa using ih'.2 i (by omega) (by omega)
+    · simp only [h, if_false]
+      constructor
+      · intro i hi; omega
+      · intro i _ hlen
+        cases i with
+        | zero => simpa using not_lt.1 h
+        | succ i =>
+          simp only [List.length_cons] at hlen
+          have hi : i < rest.length := by omega
+          have hmem : rest.getD i 0 ∈ rest := by
+            simp [List.getD_eq_getElem?_getD, hi]
+          have := ha _ hmem
+          have h2 : (a :: rest).getD (i + 1) 0 = rest.getD i 0 := by simp
+          rw [h2]
+          exact le_of_lt (lt_of_le_of_lt (not_lt.1 h) this)
+
+theorem pairwise_getD_lt (l : List Rat) (hs : l.Pairwise (· < ·)) (i j : Nat) (hij : i < j)
+    (hj : j < l.length) : l.getD i 0 < l.getD j 0 := by
+  have hi : i < l.length := by omega
+  have := (List.pairwise_iff_getElem.1 hs) i j hi hj hij
+  simpa [List.getD_eq_getElem?_getD, hi, hj] using this
+
+theorem minList_le (l : List Rat) (x : Rat) (hx : x ∈ l) : minList l ≤ x := by
+  induction l with
+  | nil => cases hx
+  | cons a rest ih =>
+    cases rest with
+    | nil =>
+      have : x = a := by simpa using hx
+      simp [minList, this]
+    | cons b rest =>
+      simp only [minList]
+      rcases List.mem_cons.1 hx with rfl | h
+      · exact min_le_left _ _
+      · exact le_trans (min_le_right _ _) (ih h)
+
 end RtcVerif.C16
